@@ -239,7 +239,11 @@ def rule_r3(facts, col):
             if e.k == "call" and e.q in DURATION_CTORS:
                 d = e
         if d is None:
-            col.silent("C04.R3", key, body.where(bb), "timeout is not a visible Duration constructor")
+            named = [peel(body.operand_expr(a)) for a in t["args"]]
+            if any(x.k == "const" and (x.ty or "").endswith("time::Duration") for x in named):
+                col.ok("C04.R3", key, body.where(bb), "timed wait with a named Duration constant")
+            else:
+                col.silent("C04.R3", key, body.where(bb), "timeout is not a visible Duration constructor")
             continue
         vals = [peel(x) for x in d.args]
         if all(x.k == "const" and x.v is not None for x in vals) and any(x.v for x in vals):
